@@ -88,11 +88,53 @@ def main(argv):
             t = _t.perf_counter()
             try:
                 return _sat(solver, *a)
+            except _ss.UnknownSatisfiability:
+                # z3's incremental solver (push/pop with learned state) occasionally runs into the per-query timeout on a
+                # query that a fresh solver decides in milliseconds: ask a fresh solver before giving the path up
+                import z3 as _z3
+                fresh = _z3.Solver()
+                fresh.set("timeout", int(per_path * 500))
+                fresh.add(*solver.assertions())
+                r = fresh.check(*a)
+                stats["fresh_solver_retries"] = stats.get("fresh_solver_retries", 0) + 1
+                if r == _z3.unknown:
+                    u = stats.setdefault("unknowns", [])
+                    if len(u) < 8:
+                        u.append({"exc": "UnknownSatisfiability", "reason": fresh.reason_unknown(), "fresh": True,
+                                  "query_s": round(_t.perf_counter() - t, 2), "at_s": round(time.time() - t0, 1)})
+                    raise
+                stats["fresh_solver_decided"] = stats.get("fresh_solver_decided", 0) + 1
+                return r == _z3.sat
+            except BaseException as e:  # noqa  (audit: why a path ended without verdict)
+                u = stats.setdefault("unknowns", [])
+                if len(u) < 8:
+                    try:
+                        why = solver.reason_unknown()
+                    except Exception:  # noqa
+                        why = "?"
+                    u.append({"exc": type(e).__name__, "reason": why, "query_s": round(_t.perf_counter() - t, 2),
+                              "at_s": round(time.time() - t0, 1)})
+                    dump = os.environ.get("VERIF_DUMP_UNKNOWN")
+                    if dump:
+                        with open("%s.%d.%d.smt2" % (dump, os.getpid(), len(u)), "w") as fh:
+                            fh.write(solver.sexpr() + "\n" + "".join("(assert %s)\n" % x.sexpr() for x in a) + "(check-sat)\n")
+                raise
             finally:
                 stats["solver_s"] += _t.perf_counter() - t
                 stats["solver_calls"] += 1
 
         _ss.solver_is_sat = sat
+        _detach = StateSpace.detach_path
+
+        def detach(self, currently_handling=None, *a, **k):
+            if currently_handling is not None and type(currently_handling).__name__ in ("NotDeterministic", "PathTimeout",
+                                                                                           "UnknownSatisfiability"):
+                d = stats.setdefault("undecided_paths", {})
+                key = type(currently_handling).__name__
+                d[key] = d.get(key, 0) + 1
+            return _detach(self, currently_handling, *a, **k)
+
+        StateSpace.detach_path = detach
 
         options = DEFAULT_OPTIONS.overlay(
             AnalysisOptionSet(
